@@ -991,4 +991,58 @@ Section Proofs.
     - destruct (find_remote id (remotes s)) as [p|]; [destruct (r_ready p)|]; split; reflexivity.
   Qed.
 
+  (* ---- C17, listener side: whatever arrives at a listener (any number of inbound connections,
+     any datagrams), with no user calls in the callbacks, leaves every existing connection's
+     registry entry untouched, the listeners untouched, and emits nothing but Message events of
+     that listener (a new stream connection is announced only later, by its own Accepted) ---- *)
+  Definition quiet_accept (it : accepted) : Prop :=
+    match it with AccRemote _ => True | AccData _ _ cb => cb = [] end.
+
+  Lemma register_preserves s st b peer lid i p :
+    J s st b -> 1 <= b -> find_remote i (remotes s) = Some p ->
+    find_remote i (remotes (fst (register_remote s peer (Some lid)))) = Some p.
+  Proof.
+    intros HJ Hb Hf. pose proof (J_bound _ _ _ HJ) as Hbd. unfold register_remote. cbn [fst remotes find_remote].
+    destruct (N.eqb_spec (mk (adapter s) Remote (next_remote s)) i) as [Heq|Hne]; [|exact Hf].
+    exfalso. apply (fresh_remote_not_issued s Hbd); [destruct HJ; lia|]. rewrite Heq. exact (J_rem_issued _ _ _ HJ _ _ Hf).
+  Qed.
+
+  Theorem accept_isolation items : forall s st b lid,
+    J s st b -> cost_accepts items <= b -> In lid (listeners st) -> resource_type gen_layout lid = Local ->
+    Forall quiet_accept items ->
+    (forall i p, find_remote i (remotes s) = Some p -> find_remote i (remotes (fst (do_accepts s lid items))) = Some p) /\
+    locals (fst (do_accepts s lid items)) = locals s /\
+    Forall (fun o => exists peer d, o = OEv (Message (lid, peer) d)) (snd (do_accepts s lid items)).
+  Proof.
+    induction items as [|it r IH]; intros s st b lid HJ Hc Hl Ht HQ; cbn [do_accepts cost_accepts] in *.
+    - cbn. repeat split; auto.
+    - inversion HQ as [|x l Hx Hr]; subst. destruct it as [peer|peer d cb].
+      + destruct (J_register_accept s st b peer lid HJ) as (J1 & E1); [lia|exact Hl|].
+        pose proof (fun i p => register_preserves s st b peer lid i p HJ ltac:(lia)) as Hpres.
+        assert (Hloc : locals (fst (register_remote s peer (Some lid))) = locals s) by reflexivity.
+        destruct (register_remote s peer (Some lid)) as [s1 nid]. cbn [fst] in *.
+        destruct (IH s1 st (b - 1) lid J1) as (A & B & C); [lia|exact Hl|exact Ht|exact Hr|].
+        repeat split; [intros i p Hf; apply A; apply Hpres; exact Hf|rewrite B; exact Hloc|exact C].
+      + cbn in Hx. subst cb. cbn [exec_ucalls]. cbn [cost_ucalls] in Hc.
+        destruct (IH s st b lid HJ) as (A & B & C); [lia|exact Hl|exact Ht|exact Hr|].
+        destruct (do_accepts s lid r) as [s2 o2]. cbn [fst snd app] in *.
+        repeat split; [exact A|exact B|]. constructor; [exists peer, d; reflexivity|exact C].
+  Qed.
+
+  (* the same, for every reachable state of the driver *)
+  Theorem listener_event_isolation a ls lid items :
+    a <= max_adapter gen_layout -> cost_labels ls + cost_accepts items <= max_base gen_layout + 1 ->
+    resource_type gen_layout lid = Local -> In lid (locals (fst (drun (dinit a) ls))) ->
+    Forall quiet_accept items ->
+    let s := fst (drun (dinit a) ls) in
+    (forall i p, find_remote i (remotes s) = Some p -> find_remote i (remotes (fst (do_accepts s lid items))) = Some p) /\
+    locals (fst (do_accepts s lid items)) = locals s /\
+    Forall (fun o => exists peer d, o = OEv (Message (lid, peer) d)) (snd (do_accepts s lid items)).
+  Proof.
+    intros Ha Hc Ht Hin HQ s.
+    destruct (drun_J ls (dinit a) {| ph := []; listeners := []; removed := [] |} (max_base gen_layout + 1)) as (st' & H & HJ);
+      [apply J_init; [exact Ha|lia]|lia|].
+    apply (accept_isolation items _ st' _ lid HJ); [lia|exact (J_loc _ _ _ HJ _ Hin)|exact Ht|exact HQ].
+  Qed.
+
 End Proofs.
